@@ -635,7 +635,260 @@ theorem tamper_mac_bytes_detected (key : K) (h0 h : HopF) (i : InfoF) (auth : ma
 
 end Auth
 
-/-! ## 4. Non-vacuity -/
+/-! ## 4. Runs of consecutive ASes inside a segment verify (composition of the step theorems) -/
+
+/-- forward evaluation of an ingress step at a hop field that is not the last of its segment -/
+theorem ingress_interior (val : Validator) (fi : Bool) (p : PathV) (sos : Bool) (hop : HopF) (info : InfoF)
+    (hs : p.segIndex p.currHf = some (p.currInf, sos, false)) (hh : p.hopAt p.currHf = some hop)
+    (hi : p.infoAt p.currInf = some info) :
+    advanceIngress val fi p =
+      ({ p with infos := p.infos.set p.currInf (ingInfo fi hop info), hops := p.hops.set p.currHf (ingHop fi hop info) },
+       .ok { alert := ingressAlert hop.flags (consDir info.flags), ingressIf := hop.ingressIf info,
+             action := .continueEgress ((ingHop fi hop info).egressIf (ingInfo fi hop info)),
+             valid := val.hop p.currHf hop (ingInfo fi hop info) sos false }) := by
+  have h1 := (segIndex_some _ _ _ _ _ _ _ hs).2.2.1 rfl
+  have hd : decide (p.currHf + 1 ≥ p.hopCount) = false :=
+    decide_eq_false (by unfold PathV.hopCount; omega)
+  unfold advanceIngress
+  simp only [hs, hh, hi, Bool.and_false, Bool.false_eq_true, if_false, ne_eq, not_true_eq_false, hd]
+  exact finishIngress_ok p p hop _ info _ _ ⟨rfl, rfl, rfl, rfl, rfl⟩ hh hi
+
+/-- forward evaluation of an egress step at a hop field that is not the last of its segment -/
+theorem egress_interior (val : Validator) (p : PathV) (sos : Bool) (hop : HopF) (info : InfoF)
+    (hs : p.segIndex p.currHf = some (p.currInf, sos, false)) (hh : p.hopAt p.currHf = some hop)
+    (hi : p.infoAt p.currInf = some info) (h63 : p.currHf + 1 ≤ MAX_TOTAL_HOPS) :
+    advanceEgress val p =
+      ({ p with infos := p.infos.set p.currInf (egrInfo hop info), hops := p.hops.set p.currHf (egrHop hop info)
+                currHf := p.currHf + 1 },
+       .ok { alert := egressAlert hop.flags (consDir info.flags), egressIf := (egrHop hop info).egressIf (egrInfo hop info)
+             valid := val.hop p.currHf hop info sos false }) := by
+  have h1 := (segIndex_some _ _ _ _ _ _ _ hs).2.2.1 rfl
+  have hm := max_hops_fits
+  have e1 : (p.currHf + 1) % 2 ^ META_CURR_HOP_FIELD_WIDTH = p.currHf + 1 := Nat.mod_eq_of_lt (by omega)
+  unfold advanceEgress
+  simp only [hs, hh, hi, ne_eq, not_true_eq_false, if_false, commit_some p hop _ info _ hh hi, e1]
+  rw [if_neg (by unfold PathV.hopCount; omega), if_neg (by omega)]
+  simp
+
+section Run
+variable {K : Type} (mac : MacFn K)
+
+/-- processing at one AS (forwarding key `k`): ingress, then – when told to continue – egress.
+`some (p', delivered)` iff every call returned `Ok` and every MAC validation passed. -/
+def asStep (k : K) (fi : Bool) (p : PathV) : Option (PathV × Bool) :=
+  match advanceIngress (hopMacValidator mac k) fi p with
+  | (p1, .ok o) =>
+    if o.valid then
+      match o.action with
+      | .forwardLocal => some (p1, true)
+      | .continueEgress _ =>
+        match advanceEgress (hopMacValidator mac k) p1 with
+        | (p2, .ok o2) => if o2.valid then some (p2, false) else none
+        | _ => none
+    else none
+  | _ => none
+
+/-- a run of consecutive ASes, the first entered from inside iff `fi`, none of them delivering -/
+def runAS : List K → Bool → PathV → Option PathV
+  | [], _, p => some p
+  | k :: ks, fi, p => match asStep mac k fi p with
+    | some (p', false) => runAS ks false p'
+    | _ => none
+
+theorem macOk_flags (k : K) (h h' : HopF) (i : InfoF)
+    (e : h'.exp = h.exp ∧ h'.consIn = h.consIn ∧ h'.consEg = h.consEg ∧ h'.mac = h.mac) :
+    macOk mac k h' i = macOk mac k h i := by
+  simp [macOk, macInput, e.1, e.2.1, e.2.2.1, e.2.2.2]
+
+theorem ingHop_auth (fi : Bool) (h : HopF) (i : InfoF) :
+    (ingHop fi h i).exp = h.exp ∧ (ingHop fi h i).consIn = h.consIn ∧ (ingHop fi h i).consEg = h.consEg ∧
+    (ingHop fi h i).mac = h.mac := by
+  unfold ingHop; simp only []; split <;> exact ⟨rfl, rfl, rfl, rfl⟩
+
+theorem ingInfo_flags (fi : Bool) (h : HopF) (i : InfoF) : (ingInfo fi h i).flags = i.flags := by
+  unfold ingInfo; split <;> rfl
+
+/-- the info field after a complete interior AS step -/
+def stepInfo (fi : Bool) (h : HopF) (i : InfoF) : InfoF := egrInfo (ingHop fi h (i)) (ingInfo fi h i)
+
+/-- **One interior AS.**  If the current hop field is not the last of its segment and carries the MAC of
+the SegID after the ingress update, processing at the AS verifies at ingress *and* egress and moves to the
+next hop field, leaving every other hop field, every other info field and the segment table untouched. -/
+theorem asStep_interior (k : K) (fi : Bool) (p : PathV) (sos : Bool) (hop : HopF) (info : InfoF)
+    (hs : p.segIndex p.currHf = some (p.currInf, sos, false)) (hh : p.hopAt p.currHf = some hop)
+    (hi : p.infoAt p.currInf = some info) (h63 : p.currHf + 1 ≤ MAX_TOTAL_HOPS)
+    (hm : macOk mac k hop (ingInfo fi hop info) = true) :
+    asStep mac k fi p = some
+      ({ p with infos := p.infos.set p.currInf (stepInfo fi hop info)
+                hops := p.hops.set p.currHf (egrHop (ingHop fi hop info) (ingInfo fi hop info))
+                currHf := p.currHf + 1 }, false) := by
+  obtain ⟨a1, a2, -⟩ := hopAt_some p _ _ hh
+  obtain ⟨b1, b2, -⟩ := infoAt_some p _ _ hi
+  unfold asStep
+  rw [ingress_interior _ fi p sos hop info hs hh hi]
+  simp only [hopMacValidator_hop, hm, if_true]
+  let p1 : PathV := { p with infos := p.infos.set p.currInf (ingInfo fi hop info), hops := p.hops.set p.currHf (ingHop fi hop info) }
+  have hs1 : p1.segIndex p1.currHf = some (p1.currInf, sos, false) := hs
+  have hh1 : p1.hopAt p1.currHf = some (ingHop fi hop info) := by
+    show (if p.currHf < p.hopCount then (p.hops.set p.currHf (ingHop fi hop info))[p.currHf]? else none) = _
+    rw [if_pos a1, List.getElem?_set_self a2]
+  have hi1 : p1.infoAt p1.currInf = some (ingInfo fi hop info) := by
+    show (if p.currInf < p.infoCount then (p.infos.set p.currInf (ingInfo fi hop info))[p.currInf]? else none) = _
+    rw [if_pos b1, List.getElem?_set_self b2]
+  have he := egress_interior (hopMacValidator mac k) p1 sos _ _ hs1 hh1 hi1 h63
+  show (match advanceEgress (hopMacValidator mac k) p1 with
+        | (p2, .ok o2) => if o2.valid then some (p2, false) else none
+        | _ => none) = _
+  rw [he]
+  simp only [hopMacValidator_hop, macOk_flags mac k hop _ _ (ingHop_auth fi hop info), hm, if_true]
+  simp only [p1, List.set_set, stepInfo]
+
+/-- the MAC conditions of a run of interior hop fields, unfolded along the SegID evolution -/
+def RunOk : Bool → InfoF → List (K × HopF) → Prop
+  | _, _, [] => True
+  | fi, info, (k, h) :: rest => macOk mac k h (ingInfo fi h info) = true ∧ RunOk false (stepInfo fi h info) rest
+
+/-- the info field after the run -/
+def runInfo : Bool → InfoF → List (K × HopF) → InfoF
+  | _, info, [] => info
+  | fi, info, (_, h) :: rest => runInfo false (stepInfo fi h info) rest
+
+/-- **A run of interior ASes verifies.**  Any number of consecutive hop fields of one segment, none of them
+the segment's last, whose MACs fit the evolving SegID (`RunOk`): processing at their ASes one after the other
+passes every ingress and egress validation and arrives at the hop field after the run with the SegID
+`runInfo`; the hop fields from there on, the other info fields and the segment table are untouched. -/
+theorem interior_run (hs : List (K × HopF)) : ∀ (fi : Bool) (p : PathV) (info : InfoF),
+    (∀ i (hi : i < hs.length), p.hopAt (p.currHf + i) = some (hs[i]).2) →
+    (∀ i, i < hs.length → ∃ sos, p.segIndex (p.currHf + i) = some (p.currInf, sos, false)) →
+    p.currHf + hs.length ≤ MAX_TOTAL_HOPS → p.infoAt p.currInf = some info → RunOk mac fi info hs →
+    ∃ p', runAS mac (hs.map (·.1)) fi p = some p' ∧ p'.currHf = p.currHf + hs.length ∧ p'.currInf = p.currInf ∧
+      p'.infoAt p'.currInf = some (runInfo fi info hs) ∧
+      p'.seg0 = p.seg0 ∧ p'.seg1 = p.seg1 ∧ p'.seg2 = p.seg2 ∧
+      (∀ j, p'.currHf ≤ j → p'.hopAt j = p.hopAt j) ∧ (∀ s, s ≠ p.currInf → p'.infoAt s = p.infoAt s) := by
+  induction hs with
+  | nil => intro fi p info _ _ _ hi _; exact ⟨p, rfl, rfl, rfl, hi, rfl, rfl, rfl, fun _ _ => rfl, fun _ _ => rfl⟩
+  | cons kh rest ih =>
+    obtain ⟨k, h⟩ := kh
+    intro fi p info H1 H2 H3 H4 H5
+    obtain ⟨hm, hrest⟩ := H5
+    have hh : p.hopAt p.currHf = some h := by
+      have := H1 0 (Nat.zero_lt_succ _)
+      simp only [Nat.add_zero, List.getElem_cons_zero] at this
+      exact this
+    obtain ⟨sos, hs0⟩ := H2 0 (by simp)
+    simp only [Nat.add_zero] at hs0
+    simp only [List.length_cons] at H3
+    have hstep := asStep_interior mac k fi p sos h info hs0 hh H4 (by omega) hm
+    obtain ⟨a1, a2, -⟩ := hopAt_some p _ _ hh
+    obtain ⟨b1, b2, -⟩ := infoAt_some p _ _ H4
+    let p2 : PathV := { p with infos := p.infos.set p.currInf (stepInfo fi h info)
+                               hops := p.hops.set p.currHf (egrHop (ingHop fi h info) (ingInfo fi h info))
+                               currHf := p.currHf + 1 }
+    have frameH : ∀ j, p.currHf + 1 ≤ j → p2.hopAt j = p.hopAt j := by
+      intro j hj
+      show (if j < p.hopCount then (p.hops.set p.currHf _)[j]? else none) = if j < p.hopCount then p.hops[j]? else none
+      rw [List.getElem?_set_ne (by omega)]
+    have frameI : ∀ s, s ≠ p.currInf → p2.infoAt s = p.infoAt s := by
+      intro s hs'
+      show (if s < p.infoCount then (p.infos.set p.currInf _)[s]? else none) = if s < p.infoCount then p.infos[s]? else none
+      rw [List.getElem?_set_ne (fun e => hs' e.symm)]
+    have hi2 : p2.infoAt p2.currInf = some (stepInfo fi h info) := by
+      show (if p.currInf < p.infoCount then (p.infos.set p.currInf _)[p.currInf]? else none) = _
+      rw [if_pos b1, List.getElem?_set_self b2]
+    obtain ⟨p', hrun, e1, e2, e3, s0, s1, s2, fH, fI⟩ := ih false p2 (stepInfo fi h info)
+      (by
+        intro i hi
+        have := H1 (i + 1) (by simp; omega)
+        simp only [List.getElem_cons_succ] at this
+        show p2.hopAt (p.currHf + 1 + i) = _
+        rw [frameH _ (by omega), show p.currHf + 1 + i = p.currHf + (i + 1) by omega]
+        exact this)
+      (by
+        intro i hi
+        obtain ⟨sos', h'⟩ := H2 (i + 1) (by simp; omega)
+        refine ⟨sos', ?_⟩
+        show segIndex p.seg0 p.seg1 p.seg2 (p.currHf + 1 + i) = some (p.currInf, sos', false)
+        rw [show p.currHf + 1 + i = p.currHf + (i + 1) by omega]
+        exact h')
+      (by show p.currHf + 1 + rest.length ≤ MAX_TOTAL_HOPS; omega) hi2 hrest
+    refine ⟨p', ?_, ?_, e2, ?_, s0, s1, s2, ?_, ?_⟩
+    · simp only [List.map_cons, runAS, hstep]; exact hrun
+    · rw [e1]; show p.currHf + 1 + rest.length = p.currHf + (rest.length + 1); omega
+    · simpa [runInfo] using e3
+    · intro j hj
+      rw [fH j hj]
+      exact frameH j (by rw [e1] at hj; show p.currHf + 1 ≤ j; have : p2.currHf = p.currHf + 1 := rfl; omega)
+    · intro s hs'; rw [fI s hs']; exact frameI s hs'
+
+
+theorem stepInfo_cons (fi : Bool) (h : HopF) (i : InfoF) (hc : consDir i.flags = true) :
+    stepInfo fi h i = { i with segId := betaStep i.segId h.mac } := by
+  have e : ingInfo fi h i = i := by unfold ingInfo; simp [hc]
+  unfold stepInfo
+  rw [e]
+  unfold egrInfo
+  simp only [hc, if_true]
+  rw [(ingHop_auth fi h i).2.2.2]
+
+theorem stepInfo_rev (fi : Bool) (h : HopF) (i : InfoF) (hc : consDir i.flags = false) :
+    stepInfo fi h i = ingInfo fi h i := by
+  unfold stepInfo egrInfo
+  rw [ingInfo_flags, hc]; simp
+
+/-- **β-chained segment, construction direction: the run conditions hold.**  Starting with `SegID = β`
+(the accumulator the first of these hop fields was built with), entered from inside or outside. -/
+theorem chained_runOk_cons (ts flags rsv : Nat) (hc : consDir flags = true) (ch : List (K × HopF)) :
+    ∀ (β : Nat) (fi : Bool), Chained mac ts β ch → RunOk mac fi { flags := flags, rsv := rsv, segId := β, ts := ts } ch := by
+  induction ch with
+  | nil => intro _ _ _; trivial
+  | cons kh rest ih =>
+    obtain ⟨k, h⟩ := kh
+    intro β fi hch
+    obtain ⟨h1, h2⟩ := hch
+    have e : ingInfo fi h { flags := flags, rsv := rsv, segId := β, ts := ts } = { flags := flags, rsv := rsv, segId := β, ts := ts } := by
+      unfold ingInfo; simp [hc]
+    refine ⟨?_, ?_⟩
+    · rw [e]; simp only [macOk, macInput, beq_iff_eq]; exact h1
+    · rw [stepInfo_cons fi h _ hc]; exact ih _ false h2
+
+/-- against construction direction, arriving from outside with the accumulator of the *next* hop field in
+construction order: the hop fields `j-1, …, 0` verify one after the other -/
+theorem chained_runOk_rev_tail (ts β0 flags rsv : Nat) (hc : consDir flags = false) (ch : List (K × HopF))
+    (hch : Chained mac ts β0 ch) : ∀ j, j ≤ ch.length →
+      RunOk mac false { flags := flags, rsv := rsv, segId := betaAt β0 ch j, ts := ts } ((ch.take j).reverse) := by
+  intro j
+  induction j with
+  | zero => intro _; simp [RunOk]
+  | succ j ih =>
+    intro hj
+    have hj' : j < ch.length := by omega
+    rw [List.take_succ_eq_append_getElem hj', List.reverse_append]
+    simp only [List.reverse_cons, List.reverse_nil, List.nil_append, List.cons_append]
+    have e : ingInfo false (ch[j]).2 { flags := flags, rsv := rsv, segId := betaAt β0 ch (j + 1), ts := ts } =
+        { flags := flags, rsv := rsv, segId := betaAt β0 ch j, ts := ts } := by
+      unfold ingInfo
+      simp only [hc, Bool.not_false, Bool.and_self, if_true]
+      rw [betaAt_succ β0 ch j hj', betaStep_betaStep]
+    show macOk mac (ch[j]).1 (ch[j]).2 (ingInfo false (ch[j]).2 _) = true ∧ RunOk mac false (stepInfo false (ch[j]).2 _) _
+    rw [stepInfo_rev false _ _ hc, e]
+    exact ⟨chained_macOk mac ts β0 ch hch flags rsv j hj', ih (by omega)⟩
+
+theorem ingInfo_true (h : HopF) (i : InfoF) : ingInfo true h i = i := by unfold ingInfo; simp
+
+/-- **β-chained segment, against construction direction: the run conditions hold.**  Entered from inside
+(source AS) at construction index `j` with `SegID = betaAt j` – for the whole reversed segment take
+`j = n-1`, where `ch[n-1] :: (ch.take (n-1)).reverse = ch.reverse` – the hop fields `j, j-1, …, 0` verify
+one after the other. -/
+theorem chained_runOk_rev (ts β0 flags rsv : Nat) (hc : consDir flags = false) (ch : List (K × HopF))
+    (hch : Chained mac ts β0 ch) (j : Nat) (hj : j < ch.length) :
+    RunOk mac true { flags := flags, rsv := rsv, segId := betaAt β0 ch j, ts := ts } (ch[j] :: (ch.take j).reverse) := by
+  show macOk mac _ _ (ingInfo true _ _) = true ∧ RunOk mac false (stepInfo true _ _) _
+  rw [stepInfo_rev true _ _ hc, ingInfo_true]
+  exact ⟨chained_macOk mac ts β0 ch hch flags rsv j hj, chained_runOk_rev_tail mac ts β0 flags rsv hc ch hch j (by omega)⟩
+
+end Run
+
+/-! ## 5. Non-vacuity -/
 
 def exInfo : InfoF := ⟨1, 0, 0x1234, 1000⟩
 def exHopF (n : Nat) : HopF := ⟨0, 5, n, n + 1, 0xabcdef000000 + n⟩
@@ -650,5 +903,12 @@ example : (runSteps [.ingress noValidation true, .egress noValidation, .ingress 
 example (mac : MacFn Nat) : ∃ hs, hs.length = 2 ∧ Chained mac 7 9 hs :=
   ⟨[(1, { exHopF 0 with mac := mac 1 ⟨9, 7, 5, 0, 1⟩ }),
     (2, { exHopF 1 with mac := mac 2 ⟨betaStep 9 (mac 1 ⟨9, 7, 5, 0, 1⟩), 7, 5, 1, 2⟩ })], rfl, ⟨rfl, rfl, trivial⟩⟩
+
+/-- the run conditions are satisfiable for every MAC function (a β-chained two-hop run) -/
+example (mac : MacFn Nat) :
+    RunOk mac true ⟨1, 0, 9, 7⟩
+      [(1, { exHopF 0 with mac := mac 1 ⟨9, 7, 5, 0, 1⟩ }),
+       (2, { exHopF 1 with mac := mac 2 ⟨betaStep 9 (mac 1 ⟨9, 7, 5, 0, 1⟩), 7, 5, 1, 2⟩ })] :=
+  chained_runOk_cons mac 7 1 0 (by decide) _ 9 true ⟨rfl, rfl, trivial⟩
 
 end ScionVerif.StdPath
